@@ -392,17 +392,24 @@ class Session:
             if not ok and pos == 'later' and replies and len(replies) == 1 and replies[0][0] == ra.RESPONSE_OF[op]:
                 # a response that ends before the first protected handle touched nothing protected
                 before = members[:members.index(first)]
-                if all(m.value is not None for m in before):
-                    if op == ra.READ_MULTIPLE_REQ:
-                        stopped = len(replies[0]) - 1 <= sum(len(m.value) for m in before)
-                    else:
-                        try:
-                            stopped = len(ra.parse_read_multiple_variable_rsp(replies[0])) <= len(before)
-                        except ra.Malformed:
-                            stopped = False
-                    if stopped:
-                        r.ev('multi_read_stopped_before_protected')
-                        continue
+                # (values the model does not know count as empty: the response is a prefix of the concatenation
+                # in request order, so one no longer than the KNOWN bytes before the protected value ends before it)
+                # A response that holds ALL the values before the protected one, whole, means the server reached
+                # the protected attribute and passed over it without the error: that is not a stop for lack of room.
+                known = all(m.value is not None for m in before)
+                if op == ra.READ_MULTIPLE_REQ:
+                    room = sum(len(m.value) for m in before if m.value is not None)
+                    stopped = len(replies[0]) - 1 < room if known else len(replies[0]) - 1 <= room
+                else:
+                    try:
+                        tuples = ra.parse_read_multiple_variable_rsp(replies[0])
+                        stopped = len(tuples) < len(before) or (
+                            len(tuples) == len(before) and bool(tuples) and len(tuples[-1][1]) < tuples[-1][0])
+                    except ra.Malformed:
+                        stopped = False
+                if stopped:
+                    r.ev('multi_read_stopped_before_protected')
+                    continue
             if ok:
                 r.ev('refusals_with_matching_error')
             elif not replies:
